@@ -6,7 +6,7 @@
    resolver tables [e]; [find_proxy] is NewProxyResolver's entry-point rule followed by FindProxyForURL
    (script, then the checks on the result); [parse_proxy], [proxies_first], [proxy_url] are pac/proxy.go. *)
 From Coq Require Import Permutation.
-From G14 Require Import Model Spec Check ProofsBasic ProofsPool ProofsParse ProofsGlob ProofsNet ProofsAll ProofsCidr PinnedExpected Obligations.
+From G14 Require Import Model Spec Check ProofsBasic ProofsPool ProofsParse ProofsGlob ProofsNet ProofsAll ProofsCidr ProofsSort PinnedExpected Obligations.
 Open Scope N_scope.
 
 (* shExpMatch is shell-expression (glob) matching: for every pattern made of literals, '.', '*', '?' and
@@ -112,6 +112,23 @@ Theorem T14_sort_is_sorted_perm : forall l,
 Proof. exact (fun l => conj (sort_perm l) (sort_sorted_reference l ob_sort_ipv6_first)). Qed.
 Print Assumptions T14_sort_is_sorted_perm.
 
+(* the handler of sortIpAddressList, from its argument to its result, for every argument and every resolver table:
+   null/undefined -> null; not a string -> false; no entry, or an entry that is not an address -> false; otherwise
+   the entries (split at ';', trimmed, empty ones dropped), each exactly once, IPv6 first, each family ascending *)
+Theorem T14_sort_handler : forall e a,
+  match a with
+  | JUndef | JNull => sortIpAddressList e a = JNull
+  | JStr s =>
+      if no_entries (list_entries s) || negb (forallb (parses e) (list_entries s))
+      then sortIpAddressList e a = JBool false
+      else exists l, sortIpAddressList e a = JStr (join [59] (map snd l)) /\
+                     Permutation (keyed e (list_entries s)) l /\
+                     sorted_by ip_le (map fst l) = true
+  | _ => sortIpAddressList e a = JBool false
+  end.
+Proof. exact (fun e a => sort_handler_spec e a ob_sort_ipv6_first). Qed.
+Print Assumptions T14_sort_handler.
+
 (* a non-string or non-ASCII result is an error; an ASCII string is returned as it is *)
 Theorem T14_result_checked : forall o,
   check_result o = match o with
@@ -146,6 +163,21 @@ Proof. exact (first_is_spec
   (eq_trans ob_parse_mode_arms (f_equal (map (fun m => (m, m))) ob_mode_consts))
   ob_parse_mode_default ob_mode_direct ob_parse_proxy_shape). Qed.
 Print Assumptions T14_first_entry.
+
+(* Proxies.All: every entry as the reference reads it, or an error as soon as one entry is malformed *)
+Theorem T14_all_entries : forall specs,
+  parse_all specs = (fix go (l : list str) : option (list proxy) :=
+                       match l with
+                       | [] => Some []
+                       | x :: r => match spec_parse x with
+                                   | None => None
+                                   | Some p => option_map (cons p) (go r)
+                                   end
+                       end) specs.
+Proof. exact (parse_all_spec
+  (eq_trans ob_parse_mode_arms (f_equal (map (fun m => (m, m))) ob_mode_consts))
+  ob_parse_mode_default ob_mode_direct ob_parse_proxy_shape). Qed.
+Print Assumptions T14_all_entries.
 
 (* keyword to scheme: lower-cased keyword, PROXY reads as http, DIRECT has no URL; IPv6 hosts are bracketed *)
 Theorem T14_scheme_mapping : forall kw h p,
